@@ -29,7 +29,7 @@ import (
 
 func runesSexp(head string, s string) sx.S {
 	out := []sx.S{head, sx.Hex(s)} // the raw bytes, then what Go's range decoding sees
-	for _, r := range s { // Go's decoding: invalid bytes arrive as U+FFFD
+	for _, r := range s {          // Go's decoding: invalid bytes arrive as U+FFFD
 		buf := make([]byte, 4)
 		n := utf8.EncodeRune(buf, r)
 		out = append(out, sx.L("r", sx.A(int(r)), sx.Hex(string(buf[:n]))))
